@@ -764,28 +764,6 @@ pub fn truncate_json(v: Value) -> Value {
 
 /// Decode a case from fuzzer bytes: the bytes become the random stream of the proptest strategy
 /// (proptest's pass-through RNG), so every strategy doubles as a structure-aware fuzz decoder.
-pub fn case_from_bytes<S: Strategy>(strategy: &S, data: &[u8]) -> Option<S::Value> {
-    case_from_bytes_tail(strategy, data, 1 << 18)
-}
-
-pub fn case_from_bytes_tail<S: Strategy>(strategy: &S, data: &[u8], tail: usize) -> Option<S::Value> {
-    // The pass-through generator yields zeros once its bytes are used up, and rand's uniform sampler rejects a zero
-    // draw for every range that is not a power of two: a short input would spin forever.  The input is therefore
-    // extended by a long pseudo-random tail that is a pure function of the input (BLAKE3 in XOF mode), so the
-    // fuzzer's bytes steer the first choices and the case is still a deterministic function of the file.
-    let mut seed = Vec::with_capacity(data.len() + tail);
-    seed.extend_from_slice(data);
-    seed.resize(data.len() + tail, 0);
-    let mut h = blake3::Hasher::new();
-    h.update(b"vcheck-fuzz-tail");
-    h.update(data);
-    h.finalize_xof().fill(&mut seed[data.len()..]);
-    let rng = proptest::test_runner::TestRng::from_seed(RngAlgorithm::PassThrough, &seed);
-    let cfg = Config { failure_persistence: None, ..Config::default() };
-    let mut runner = TestRunner::new_with_rng(cfg, rng);
-    strategy.new_tree(&mut runner).ok().map(|t| t.current())
-}
-
 pub fn from_value<T: DeserializeOwned>(v: &Value) -> Option<T> {
     serde_json::from_value(v.clone()).ok()
 }
